@@ -114,8 +114,11 @@ engine_prop('C10', ['C10'], DEAL_FIELDS, DEAL_OPS, directed={'exact_deck': 0.08,
 engine_prop('C12', ['C12'], SHOW_FIELDS | CHIP_FIELDS, SHOW_OPS, directed={'stud8': 0.05})
 # C11's statement covers, per variant, the hole cards and facings and the board cards of every street, the
 # betting structure, caps and bet sizes: the dealing slice belongs to it as well as the raise sizes
-engine_prop('C11', ['C11', 'C11deal'], {'variant_table', 'min_cbr', 'pot_cbr', 'max_cbr', 'can_cbr', 'cbrCnt', 'cbrAmt'} | DEAL_FIELDS,
-            {'CompletionBettingOrRaisingTo'} | DEAL_OPS, profile={'predefined': True}, pre=pre_c11, directed={'stud8': 0.04})
+engine_prop('C11', ['C11', 'C11deal', 'C11open'],
+            {'variant_table', 'min_cbr', 'pot_cbr', 'max_cbr', 'can_cbr', 'cbrCnt', 'cbrAmt',
+             'opener', 'actors', 'actor', 'turn', 'bringin', 'completion'} | DEAL_FIELDS,
+            {'CompletionBettingOrRaisingTo', 'BringInPosting'} | DEAL_OPS, profile={'predefined': True}, pre=pre_c11,
+            directed={'stud8': 0.04, 'ante_allin': 0.06})
 def pre_c16():
     import phh
     r = phh.check_parse_lines(20250916, 4000)
@@ -123,9 +126,11 @@ def pre_c16():
                    fields=[('phh', d['expected'], d['actual'])], script=['case parse-action', 'parseline ' + d['input']],
                    meta={'variant': 'custom', 'line': d['input']}) for d in r['diffs']]
     c = phh.check_commentary(20250916, 300)
-    return dict(diffs=pseudo, viols=c['viols'],
+    d = phh.check_decimal(int(os.environ.get('VERIF_SEED', '0')) + 20250916, 400)
+    return dict(diffs=pseudo, viols=c['viols'] + d['viols'],
                 coverage=dict(parsed_action_lines=r['count'], parse_differences=len(r['diffs']),
-                              commented_hands=c['count'], commentary_violations=len(c['viols'])))
+                              commented_hands=c['count'], commentary_violations=len(c['viols']),
+                              decimal_chip_hands=d['count'], decimal_violations=len(d['viols'])))
 
 
 engine_prop('C16', ['C16'], {'phh'}, set(), profile={'predefined': True}, pre=pre_c16)
@@ -263,6 +268,13 @@ def replay(pid: str, spec: dict, path: str) -> int:
             print(f'reproduced: property={pid} clause=commentary signature={sig}: {detail[:300]}')
         if not vs:
             print('not reproduced on the current tree: commentary round trip')
+        return 1 if vs else 0
+    if d.get('meta', {}).get('decimal_seed') is not None:
+        vs = phh.decimal_violations(d['meta']['decimal_seed']) or []
+        for sig, detail in vs:
+            print(f'reproduced: property={pid} clause=replay signature={sig}: {detail[:300]}')
+        if not vs:
+            print('not reproduced on the current tree: decimal-chip round trip')
         return 1 if vs else 0
     mons = [monitors.ALL[m]() for m in spec.get('monitors', []) if m in monitors.ALL]
     impl.replay_script(d['script'], mons, d.get('valid'))
@@ -564,7 +576,7 @@ def decide_c18(pid, spec, tier, seed, theorems, t0):
     k = 8 if th else 1
     jobs = [('ranges', seed * 100, 600, th)]
     for j in range(6 * k):
-        jobs += [('equities', seed * 100 + j, 60, th), ('icm', seed * 100 + j, 250, th)]
+        jobs += [('equities', seed * 100 + j, 60, th), ('icm', seed * 100 + j, 250, th), ('locked', seed * 100 + j, 12, th)]
     with ProcessPoolExecutor(max_workers=16) as ex:
         rs = list(ex.map(_c18_part, jobs))
     viols = [v for _, r in rs for v in r['viols']]
